@@ -12,6 +12,8 @@ TReset == /\ Is("Reset")
           /\ typ' = E.types /\ H' = SetOf(E.H)
           /\ phase' = "cfg" /\ served' = "none" /\ l' = l + 1 /\ scn' = [refuse |-> SetOf(E.refuse), strat |-> E.strat]
 TSend == Is("ClientSend") /\ Send /\ Consume
+\* endpoints turned unhealthy while the request is being routed: the candidates stay those of the arrival
+TFlip == Is("Flip") /\ phase = "sent" /\ UNCHANGED <<prefix, allowed, typ, H, phase, served>> /\ Consume
 TBackendRecv == Is("BackendRecv") /\ Dispatch(E.e) /\ Consume
 TClientDone == Is("ClientDone") /\ Answer(E.st) /\ Consume
 TListing == /\ Is("Listing")
@@ -31,7 +33,7 @@ KF_C11_1_Done == /\ "KF-C11-1" \in KnownDeviations
 
 TraceInit == /\ prefix = "none" /\ allowed = {} /\ typ = <<>> /\ H = {} /\ phase = "answered"
              /\ served = "none" /\ scn = <<>> /\ l = 1
-TraceNext == TReset \/ TSend \/ TBackendRecv \/ TClientDone \/ TListing \/ KF_C11_1_Recv \/ KF_C11_1_Done
+TraceNext == TReset \/ TSend \/ TFlip \/ TBackendRecv \/ TClientDone \/ TListing \/ KF_C11_1_Recv \/ KF_C11_1_Done
 TraceSpec == TraceInit /\ [][TraceNext]_tvars
 HW == HWMark(l)
 =============================================================================
